@@ -132,16 +132,23 @@ def item_text(name, i):
     return f'L{i};\n' if name == 'lines' else f'# {i + 1} "f{i}.h"\n'
 
 
+FINAL_NEWLINE = [True]     # the variant without a terminating newline on the last line is run as well
+
+
 def build_file(name, n):
     """returns (text, item lines)"""
     if name == 'lines':
-        return ''.join(item_text(name, i) for i in range(n))
-    parts = ['int keep0;\n']
-    for i in range(n):
-        parts.append(item_text(name, i))
-        if i % 2 == 0:
-            parts.append(f'int x{i};\n')
-    return ''.join(parts)
+        text = ''.join(item_text(name, i) for i in range(n))
+    else:
+        parts = ['int keep0;\n']
+        for i in range(n):
+            if i == n - 1 and not FINAL_NEWLINE[0]:
+                parts.append('int last;\n')         # so that the last marker is the last line of the file
+            parts.append(item_text(name, i))
+            if i % 2 == 0 and (FINAL_NEWLINE[0] or i != n - 1):
+                parts.append(f'int x{i};\n')
+        text = ''.join(parts)
+    return text if FINAL_NEWLINE[0] or not text else text[:-1]
 
 
 def items_of(name, n, text):
@@ -180,7 +187,7 @@ def run_pass_case(ctx, name, n, test_items, wd):
 
 
 def judge_pass_case(ctx, name, n, label, loop, final, final_text, required, test_items):
-    scen = {'kind': 'pass', 'pass': name, 'n': n, 'test': label}
+    scen = {'kind': 'pass', 'pass': name, 'n': n, 'test': label, 'final_newline': FINAL_NEWLINE[0]}
     if loop.timed_out:
         ctx.report('no-termination', f'{name} did not finish within {loop.max_steps} candidates', scen)
         return
@@ -206,8 +213,8 @@ def judge_pass_case(ctx, name, n, label, loop, final, final_text, required, test
             ctx.report('monotone-not-exact', f'{name}: result {final} != required subset {sorted(required)}', scen)
             return
         # everything that is not an instance must be untouched
-        expect = ''.join(l + '\n' for l in build_file(name, n).split('\n')[:-1]
-                         if not any(l == item_text(name, j).rstrip('\n') for j in range(n) if j not in required))
+        expect = ''.join(l for l in build_file(name, n).splitlines(keepends=True)
+                         if not any(l.rstrip('\n') == item_text(name, j).rstrip('\n') for j in range(n) if j not in required))
         if final_text != expect:
             ctx.report('non-instance-text-changed', f'{name}: text outside the removed instances changed', scen)
             return
@@ -237,8 +244,9 @@ def hash_pred(seed, density):
 def part_passes(ctx, diffs, deep=False):
     nmax = (7 if ctx.tier == 'quick' else 10) + (1 if deep else 0)
     lines, reals, scens = [], [], []
-    for name in ('lines', 'line_markers'):
-        for n in range(0, nmax + 1):
+    for name, nl in (('lines', True), ('line_markers', True), ('lines', False), ('line_markers', False)):
+        FINAL_NEWLINE[0] = nl
+        for n in range(0, (nmax if nl else 5) + 1):
             for mask in range(1 << n):
                 req = [i for i in range(n) if mask >> i & 1]
                 ti = (lambda its, req=req: all(r in its for r in req))
@@ -249,7 +257,10 @@ def part_passes(ctx, diffs, deep=False):
                     ctx.nontrivial(('req', name, n, mask))
                 lines.append(f'binrun {n} {enc_list(req)}')
                 reals.append(trace_str(loop, final))
-                scens.append({'kind': 'pass', 'pass': name, 'n': n, 'required': req})
+                scens.append({'kind': 'pass', 'pass': name, 'n': n, 'required': req, 'final_newline': nl})
+        if not nl:
+            FINAL_NEWLINE[0] = True
+            continue
         # arbitrary (non-monotone) deterministic predicates
         for k in range(60 if ctx.tier == 'quick' else 600):
             n = ctx.rng.randint(1, 12)
@@ -286,6 +297,7 @@ def replay(ctx, scen):
         else:
             req = None
             ti = hash_pred(tuple(t['hash']), 100)
+        FINAL_NEWLINE[0] = scen.get('final_newline', True)
         loop, final, ftxt, table = run_pass_case(ctx, scen['pass'], scen['n'], ti, None)
         judge_pass_case(ctx, scen['pass'], scen['n'], t, loop, final, ftxt, req, ti)
     print('replayed', scen.get('kind'), '->', 'fails' if ctx.violations else 'holds')
